@@ -211,7 +211,18 @@ fn yml_chain_second_running(p: &Proj) -> String {
     format!("targets:\n  first:\n    build: '{}'\n  second:\n    dependencies: [first]\n    build: '{}'\n", p.quick("first"), p.forever("second"))
 }
 
+/// the exit after a failure races with whatever the dropped actors still do by themselves: the scenario is
+/// repeated so that an outcome that shows only on some runs is seen (each finding is still re-confirmed twice)
 fn c10_failure_exit() -> Option<(String, String)> {
+    for _ in 0..12 {
+        if let Some(r) = c10_failure_exit_once() {
+            return Some(r);
+        }
+    }
+    None
+}
+
+fn c10_failure_exit_once() -> Option<(String, String)> {
     let p = Proj::new("c10f");
     // `slow` never ends; `bad` fails once `slow` has started
     let wait_slow = format!("while ! grep -q \"start slow\" {t} 2>/dev/null; do sleep 0.01; done; exit 3", t = p.trace.display());
@@ -388,6 +399,71 @@ fn yml_agg_chain(p: &Proj) -> String {
     }
     s += &format!("  d:\n    build: '{}'\n", p.quick("d"));
     s
+}
+
+// ---------------------------------------------------------------------------------------
+// C01: the three sources of a dependency (listed, implied by X.output, reached through an aggregate) on the real
+// binary, where the union is computed from the project files
+
+fn c01_order(yml_root: &dyn Fn(&Proj) -> String, lib: Option<&dyn Fn(&Proj) -> String>, args: &[&str], top: &str, must_precede: &[&str]) -> Option<(String, String)> {
+    let p = Proj::new("c01");
+    p.write_yml("zinoma.yml", &yml_root(&p));
+    if let Some(l) = lib {
+        p.write_yml("lib/zinoma.yml", &l(&p));
+    }
+    let mut c = p.spawn(args);
+    let started = p.wait_line(&format!("start {}", top), 25);
+    std::thread::sleep(Duration::from_millis(300));
+    if alive(&mut c) {
+        signal(&c, libc::SIGTERM);
+    }
+    let e = wait_end(c, 15);
+    let tr = p.trace_lines();
+    let left = p.leftovers();
+    p.cleanup();
+    if !started {
+        return Some((format!("{} never started", top), format!("exit {:?}; trace {:?}; stderr {}", e.code, tr, e.stderr.lines().rev().take(3).collect::<Vec<_>>().join(" | "))));
+    }
+    let at = tr.iter().position(|l| l == &format!("start {}", top)).unwrap();
+    for m in must_precede {
+        if !tr[..at].iter().any(|l| l == m) {
+            return Some((format!("{} started before a dependency was ready", top), format!("`{}` is not in the trace before `start {}`: {:?}", m, top, tr)));
+        }
+    }
+    if !left.is_empty() {
+        return Some(("process left behind".to_string(), format!("{:?}", left)));
+    }
+    None
+}
+
+fn c01_same_name_two_projects() -> Option<(String, String)> {
+    let slow = |p: &Proj, n: &str| p.script(n, &format!("sleep 0.6; echo end {} >> {}", n, p.trace.display()));
+    let root = |p: &Proj| format!("name: app\nimports:\n  lib: lib\ntargets:\n  codegen:\n    build: '{}'\n    output: [{{paths: [gen.txt]}}]\n  package:\n    dependencies: [\"lib::codegen\"]\n    input: [codegen.output]\n    build: '{}'\n", slow(p, "codegen"), p.quick("package"));
+    let lib = |p: &Proj| format!("name: lib\ntargets:\n  codegen:\n    build: '{}'\n", slow(p, "lib-codegen"));
+    c01_order(&root, Some(&lib), &["package"], "package", &["end codegen", "end lib-codegen"])
+}
+
+fn c01_three_sources() -> Option<(String, String)> {
+    let slow = |p: &Proj, n: &str| p.script(n, &format!("sleep 0.4; echo end {} >> {}", n, p.trace.display()));
+    let root = |p: &Proj| {
+        format!(
+            "targets:\n  listed:\n    build: '{}'\n  implied:\n    build: '{}'\n    output: [{{paths: [i.txt]}}]\n  viaagg:\n    build: '{}'\n  svc:\n    service: '{}'\n  agg:\n    dependencies: [viaagg, inner]\n  inner:\n    dependencies: [svc]\n  top:\n    dependencies: [listed, agg]\n    input: [implied.output]\n    build: '{}'\n",
+            slow(p, "listed"),
+            slow(p, "implied"),
+            slow(p, "viaagg"),
+            p.forever("svc"),
+            p.quick("top")
+        )
+    };
+    c01_order(&root, None, &["top"], "top", &["end listed", "end implied", "end viaagg", "start svc"])
+}
+
+pub fn bind_c01(rep: &mut Report) {
+    let sc: Vec<Scenario> = vec![
+        ("equal target names in two projects: one listed under dependencies, the other's output taken as input", c01_same_name_two_projects),
+        ("listed + implied by X.output + reached through nested aggregates (a build and a service)", c01_three_sources),
+    ];
+    run_scenarios(rep, "C01", sc);
 }
 
 pub fn bind_c04(rep: &mut Report) {
@@ -572,8 +648,53 @@ fn c20_empty() -> Option<(String, String)> {
     r
 }
 
+/// "the same scripts run or are skipped": a sequence of invocations (plain, plain again, --clean, after an edit)
+/// naming the aggregate, its inner aggregate, or the builds themselves
+fn c20_incremental() -> Option<(String, String)> {
+    let run = |req: Vec<&str>| -> Vec<(Vec<String>, Option<i32>)> {
+        let p = Proj::new("c20i");
+        write(&p.root.join("in1.txt"), b"one");
+        write(&p.root.join("in2.txt"), b"two");
+        p.write_yml(
+            "zinoma.yml",
+            &format!("targets:\n  b1:\n    build: '{}'\n    input: [{{paths: [in1.txt]}}]\n  b2:\n    build: '{}'\n    input: [{{paths: [in2.txt]}}]\n  inner:\n    dependencies: [b2]\n  agg:\n    dependencies: [b1, inner]\n", p.quick("b1"), p.quick("b2")),
+        );
+        let mut out = vec![];
+        let mut step = |flags: &[&str]| {
+            let before = p.trace_lines().len();
+            let mut args: Vec<&str> = flags.to_vec();
+            args.extend(req.iter().cloned());
+            let (code, _, _) = run_to_end(&p, &args);
+            let mut tr: Vec<String> = p.trace_lines()[before..].iter().filter(|l| l.starts_with("start ")).cloned().collect();
+            tr.sort();
+            out.push((tr, code));
+        };
+        step(&[]);
+        step(&[]);
+        step(&["--clean"]);
+        step(&[]);
+        write(&p.root.join("in1.txt"), b"one, edited");
+        step(&[]);
+        p.cleanup();
+        out
+    };
+    let direct = run(vec!["b1", "b2"]);
+    let both = vec!["start b1".to_string(), "start b2".to_string()];
+    let expected: Vec<(Vec<String>, Option<i32>)> = vec![(both.clone(), Some(0)), (vec![], Some(0)), (both.clone(), Some(0)), (vec![], Some(0)), (vec!["start b1".to_string()], Some(0))];
+    if direct != expected {
+        return Some(("naming the builds: run / skip sequence is not the expected one".to_string(), format!("got {:?}, expected {:?} for: plain, plain, --clean, plain, edit in1 + plain", direct, expected)));
+    }
+    for req in [vec!["agg"], vec!["b1", "inner"], vec!["agg", "b2"]] {
+        let a = run(req.clone());
+        if a != direct {
+            return Some(("aggregate not equivalent to its dependencies over a sequence of invocations".to_string(), format!("zinoma [plain, plain, --clean, plain, edit+plain] {:?}: {:?}; naming b1 b2: {:?}", req, a, direct)));
+        }
+    }
+    None
+}
+
 pub fn bind_c20(rep: &mut Report) {
-    let sc: Vec<Scenario> = vec![("aggregate over a build and a nested aggregate over a service", || c20_pair(true)), ("aggregate over builds only", || c20_pair(false)), ("aggregate over an empty aggregate", c20_empty)];
+    let sc: Vec<Scenario> = vec![("aggregate over a build and a nested aggregate over a service", || c20_pair(true)), ("aggregate over builds only", || c20_pair(false)), ("aggregate over an empty aggregate", c20_empty), ("run / skip / --clean sequences naming the aggregate or its builds", c20_incremental)];
     run_scenarios(rep, "C20", sc);
 }
 
@@ -823,8 +944,43 @@ fn c19_spellings() -> Option<(String, String)> {
     r
 }
 
+/// two different loaded projects declaring one name: `name::target` could denote two targets, so the tree has to
+/// be refused whatever the shape of the import graph (named or unnamed root, the two reached through different
+/// importers, another project's directory sorting between them)
+fn c19_same_name_twice() -> Option<(String, String)> {
+    for (label, root_name) in [("unnamed root", None), ("named root", Some("app"))] {
+        let p = Proj::new("c19d");
+        let q = |n: &str| p.quick(n);
+        let head = root_name.map(|n| format!("name: {}\n", n)).unwrap_or_default();
+        p.write_yml("zinoma.yml", &format!("{}imports:\n  a: a\n  b: b\ntargets:\n  all:\n    dependencies: [\"a::pack\", \"b::pack\"]\n", head));
+        p.write_yml("a/zinoma.yml", &format!("name: a\nimports:\n  common: common\ntargets:\n  pack:\n    dependencies: [\"common::gen\"]\n    build: '{}'\n", q("a-pack")));
+        p.write_yml("b/zinoma.yml", &format!("name: b\nimports:\n  common: common\ntargets:\n  pack:\n    dependencies: [\"common::gen\"]\n    build: '{}'\n", q("b-pack")));
+        p.write_yml("a/common/zinoma.yml", &format!("name: common\ntargets:\n  gen:\n    build: '{}'\n", q("a-common-gen")));
+        p.write_yml("b/common/zinoma.yml", &format!("name: common\ntargets:\n  gen:\n    build: '{}'\n", q("b-common-gen")));
+        for args in [vec!["all"], vec!["common::gen"], vec!["--clean"]] {
+            let (code, err, to) = run_to_end(&p, &args);
+            let tr = p.trace_lines();
+            let bad = if to {
+                Some("hangs".to_string())
+            } else if err.contains("panicked") {
+                Some("crashes zinoma".to_string())
+            } else if code == Some(0) || !tr.is_empty() {
+                Some(format!("is accepted (exit {:?}, scripts {:?}): `common::gen` denotes two targets", code, tr))
+            } else {
+                None
+            };
+            if let Some(b) = bad {
+                p.cleanup();
+                return Some(("two loaded projects with one name are not refused".to_string(), format!("{}; zinoma {:?} {}", label, args, b)));
+            }
+        }
+        p.cleanup();
+    }
+    None
+}
+
 pub fn bind_c19(rep: &mut Report) {
-    let sc: Vec<Scenario> = vec![("named root importing a project with the same target names", c19_spellings)];
+    let sc: Vec<Scenario> = vec![("named root importing a project with the same target names", c19_spellings), ("two loaded projects with one name, reached through different importers", c19_same_name_twice)];
     run_scenarios(rep, "C19", sc);
 }
 
@@ -902,8 +1058,66 @@ fn wait_end_kill(mut c: Child) -> String {
     e.stderr.lines().rev().take(4).collect::<Vec<_>>().join(" | ")
 }
 
+/// every declared input of a target is watched: several resources with the same extension filter, several paths in
+/// one resource, a resource with a filter of its own, and the producer's outputs on top; a service likewise
+fn c06_every_resource_watched() -> Option<(String, String)> {
+    let p = Proj::new("c06r");
+    for f in ["src/a.txt", "conf/b.txt", "extra/c.txt", "more/d.txt", "css/e.css", "svc1/x.txt", "svc2/y.txt", "pin/in.txt"] {
+        write(&p.root.join(f), b"v0");
+    }
+    let prod = format!("mkdir -p gen; cat pin/in.txt > gen/o.txt; echo end p >> {}", p.trace.display());
+    p.write_yml(
+        "zinoma.yml",
+        &format!(
+            "targets:\n  p:\n    build: '{}'\n    input: [{{paths: [pin]}}]\n    output: [{{paths: [gen]}}]\n  t:\n    build: '{}'\n    input: [{{paths: [src]}}, {{paths: [conf, extra]}}, {{paths: [more]}}, {{paths: [css], extensions: [css]}}, p.output]\n  s:\n    service: '{}'\n    input: [{{paths: [svc1]}}, {{paths: [svc2]}}]\n  all:\n    dependencies: [t, s]\n",
+            p.script("p", &prod),
+            p.quick("t"),
+            p.forever("s")
+        ),
+    );
+    let mut c = p.spawn(&["--watch", "all"]);
+    let fail = |c: Child, p: &Proj, fp: String, d: String| -> Option<(String, String)> {
+        let e = wait_end_kill(c);
+        let r = Some((fp, format!("{} ; trace {:?} ; stderr tail: {}", d, p.trace_lines(), e)));
+        p.cleanup();
+        r
+    };
+    if !p.wait_line("end t", 30) || !p.wait_line("start s", 30) {
+        return fail(c, &p, "watch mode did not bring the tree up to date".into(), String::new());
+    }
+    std::thread::sleep(Duration::from_millis(700));
+    let count = |p: &Proj, l: &str| p.trace_lines().iter().filter(|x| *x == l).count();
+    for (k, (file, line)) in [("src/a.txt", "end t"), ("conf/b.txt", "end t"), ("extra/c.txt", "end t"), ("more/d.txt", "end t"), ("css/e.css", "end t"), ("pin/in.txt", "end t"), ("svc1/x.txt", "start s"), ("svc2/y.txt", "start s")].iter().enumerate() {
+        if !alive(&mut c) {
+            return fail(c, &p, "watch run ended by itself".into(), String::new());
+        }
+        let before = count(&p, line);
+        write(&p.root.join(file), format!("v{}", k + 1).as_bytes());
+        let t0 = Instant::now();
+        while count(&p, line) == before && t0.elapsed() < Duration::from_secs(12) {
+            std::thread::sleep(Duration::from_millis(20));
+        }
+        if count(&p, line) == before {
+            return fail(c, &p, format!("a change to a declared input was never acted upon: {}", file.split('/').next().unwrap_or("")), format!("edited {} and waited 12 s for another `{}`", file, line));
+        }
+        std::thread::sleep(Duration::from_millis(400));
+    }
+    signal(&c, libc::SIGINT);
+    let e = wait_end(c, 15);
+    let left = p.leftovers();
+    let r = if e.timed_out {
+        Some(("SIGINT not honoured".to_string(), String::new()))
+    } else if !left.is_empty() {
+        Some(("process left behind".to_string(), format!("{:?}", left)))
+    } else {
+        None
+    };
+    p.cleanup();
+    r
+}
+
 pub fn bind_c06(rep: &mut Report) {
-    let sc: Vec<Scenario> = vec![("producer->consumer, real watcher: clean tree, edit while idle, edit during a build, no rebuild loop", c06_watch_real)];
+    let sc: Vec<Scenario> = vec![("producer->consumer, real watcher: clean tree, edit while idle, edit during a build, no rebuild loop", c06_watch_real), ("real watcher: a change under each of several declared resources (same filter, several paths, own filter, inherited outputs; build and service)", c06_every_resource_watched)];
     run_scenarios(rep, "C06", sc);
 }
 
